@@ -91,3 +91,94 @@ example :
      | .error _ => false) = true := by decide
 
 end Optree
+
+namespace Optree
+
+/-! ### any n replacement leaves are accepted, any other number is a ValueError -/
+
+/-- whether `MakeNode` succeeds depends on the number of children only -/
+theorem makeNode_isOk_congr (node : Node) (cs1 cs2 : List PyObj) (h : cs1.length = cs2.length) :
+    (∃ r, makeNode node cs1 = .ok r) → ∃ r, makeNode node cs2 = .ok r := by
+  unfold makeNode
+  rw [h]
+  split
+  · simp
+  · cases node.kind <;> simp only [] <;> (try (split <;> simp)) <;> simp
+
+/-- **control flow of `UnflattenImpl` does not depend on the leaf objects**: if a node array unflattens
+with one list of leaves, then it unflattens with any other list of the same length, and raises
+ValueError ("too few" / "too many" leaves) for any list of a different length -/
+theorem unflattenGo_leaf_count (nodes : List Node) :
+    ∀ (ls1 st1 : List PyObj) (r : PyObj), unflattenGo nodes ls1 st1 = .ok r →
+      ∀ (ls2 st2 : List PyObj), st2.length = st1.length →
+        (ls2.length = ls1.length → ∃ r', unflattenGo nodes ls2 st2 = .ok r') ∧
+        (ls2.length ≠ ls1.length → unflattenGo nodes ls2 st2 = .error .value) := by
+  induction nodes with
+  | nil =>
+    intro ls1 st1 r h ls2 st2 hst
+    simp only [unflattenGo] at h ⊢
+    split at h; · simp at h
+    rename_i he
+    simp only [Bool.not_eq_true', List.isEmpty_eq_false_iff, ne_eq, Decidable.not_not] at he
+    subst he
+    split at h
+    · rename_i r0
+      constructor
+      · intro hl
+        have : ls2 = [] := List.eq_nil_of_length_eq_zero (by simpa using hl)
+        subst this
+        match st2, hst with
+        | [x], _ => exact ⟨x, by simp⟩
+      · intro hl
+        have : ls2 ≠ [] := by intro hc; subst hc; simp at hl
+        simp [this]
+    · simp at h
+  | cons node rest ih =>
+    intro ls1 st1 r h ls2 st2 hst
+    rw [unflattenGo.eq_def] at h
+    rw [unflattenGo.eq_def]
+    simp only at h ⊢
+    split at h; · simp at h
+    rename_i harity
+    have harity2 : ¬ st2.length < node.arity := by omega
+    simp only [harity2, if_false]
+    cases hk : node.kind with
+    | leaf =>
+      simp only [hk] at h ⊢
+      cases ls1 with
+      | nil => simp at h
+      | cons l1 ls1' =>
+        simp only at h
+        cases ls2 with
+        | nil =>
+          exact ⟨fun hl => by simp at hl, fun _ => rfl⟩
+        | cons l2 ls2' =>
+          have := ih ls1' (l1 :: st1) r h ls2' (l2 :: st2) (by simp [hst])
+          exact ⟨fun hl => this.1 (by simpa using hl), fun hl => this.2 (by simpa using hl)⟩
+    | _ =>
+      simp only [hk] at h ⊢
+      all_goals
+        cases hm : makeNode node (st1.take node.arity).reverse with
+        | error e => simp [hm] at h
+        | ok out =>
+          simp only [hm] at h
+          obtain ⟨out2, hm2⟩ := makeNode_isOk_congr node _ (st2.take node.arity).reverse
+            (by simp [List.length_take, hst]) ⟨out, hm⟩
+          simp only [hm2]
+          exact ih ls1 _ r h ls2 _ (by simp [List.length_drop, hst])
+
+/-- **Leaf count.**  A treespec produced by `flatten` accepts *any* list of exactly `num_leaves`
+replacement leaves (whatever objects they are) and rejects every other length with ValueError. -/
+theorem C01_leaf_count (cfg : Cfg) (hreg : cfg.reg.OK) (t : PyObj) (hwf : t.wf = true)
+    (ls : List PyObj) (sp : Spec) (h : flatten cfg t = .ok (ls, sp)) (ls' : List PyObj) :
+    (ls'.length = sp.numLeaves → ∃ t', unflatten sp ls' = .ok t') ∧
+    (ls'.length ≠ sp.numLeaves → unflatten sp ls' = .error .value) := by
+  have hrt := C01_roundtrip cfg hreg t hwf ls sp h
+  have hs := C01_flatten_sane cfg t ls sp h
+  unfold unflatten at hrt ⊢
+  simp only [hs.1, Bool.not_true, Bool.false_eq_true, if_false] at hrt ⊢
+  have := unflattenGo_leaf_count sp.nodes ls [] t hrt ls' [] rfl
+  rw [hs.2]
+  exact this
+
+end Optree
